@@ -3,6 +3,7 @@ package trzsz
 import (
 	"bytes"
 	"fmt"
+	"math/rand"
 	"os"
 	"path/filepath"
 	"strings"
@@ -277,9 +278,40 @@ func vC03Pumps(rc *runCtx) {
 	dst := filepath.Join(rc.dir, "dst")
 	os.MkdirAll(dst, 0755)
 	spec := vGenSources(rc, src, 3, cfg.dirMode, 50000, !cfg.overwrite)
+	// a file full of bytes that mean something when they arrive alone on a terminal (Ctrl-C above all), sent raw
+	ctrlRich := tp.Bool("c03p.ctrlrich", 300)
+	if ctrlRich {
+		cfg.binary, cfg.compress = true, "no"
+		b := make([]byte, 3000+tp.Draw("c03p.ctrlsize", 40000))
+		r := rand.New(rand.NewSource(int64(tp.Draw("c03p.ctrlseed", 1<<30))))
+		for i := range b {
+			switch r.Intn(12) {
+			case 0:
+				b[i] = 0x03
+			case 1:
+				b[i] = []byte{0x1a, 0x04, '\r', '\n', '#', 0x1b}[r.Intn(6)]
+			default:
+				b[i] = byte('a' + r.Intn(26))
+			}
+		}
+		p := filepath.Join(src, "ctrl-rich.bin")
+		if len(spec.paths) > 0 {
+			if st, err := os.Stat(spec.paths[0]); err == nil && st.IsDir() {
+				p = filepath.Join(spec.paths[0], "ctrl-rich.bin")
+			} else {
+				spec.paths = append(spec.paths, p)
+			}
+		}
+		vWriteFile(p, b)
+	}
 	o := cfg.opts()
 	o.srcPaths, o.dstDir = spec.paths, dst
-	o.profile = transportProfile{segPm: []int{1000, 700}[tp.Draw("c03p.seg", 2)], coalPm: []int{0, 100, 400}[tp.Draw("c03p.coal", 3)], maxCuts: 2 + tp.Draw("c03p.maxcuts", 8)}
+	defer func() {
+		if ctrlRich {
+			rc.fault("raw-control-bytes-in-lone-reads")
+		}
+	}()
+	o.profile = transportProfile{lonePm: []int{0, 400}[tp.Draw("c03p.lone", 2)], loneByte: 1 + 0x03, segPm: []int{1000, 700}[tp.Draw("c03p.seg", 2)], coalPm: []int{0, 100, 400}[tp.Draw("c03p.coal", 3)], maxCuts: 2 + tp.Draw("c03p.maxcuts", 8)}
 	if tp.Bool("c03p.lat", 300) {
 		o.profile.latPm, o.profile.latMax = 300, 20*time.Millisecond
 	}
